@@ -195,7 +195,7 @@ class HarnessResult:
 
 ASAN_RE = re.compile(r"ERROR: AddressSanitizer: (\S+)")
 UBSAN_RE = re.compile(r"runtime error: (.*)")
-FRAME_RE = re.compile(r"#\d+ 0x[0-9a-f]+ in (\S+) (\S+?):(\d+)")
+FRAME_RE = re.compile(r"#\d+ 0x[0-9a-f]+ in (\S+) (/\S+?\.[ch])(?::(\d+))?")
 
 
 def parse_fault(stderr, rc, timed_out=False):
